@@ -67,6 +67,8 @@ def integrateScalar (c : Curve) (nnodes : Option Nat) (closed : Bool) : Except E
 /-- `Curve.fit_points(points, nodes)` -/
 def fitPoints (c : Curve) (points : List Vec) (nodes : Option (List Rat)) : Except Err Curve := do
   if points.length < c.npts then throw .other
+  -- default nodes come from `closed_linspace(len(points))`, which asserts `npts > 1`
+  if nodes.isNone && points.length < 2 then throw .other
   let ns := match nodes with
     | some l => l
     | none => (closedLinspace points.length).map fun x => c.kv.umin + (c.kv.umax - c.kv.umin) * x
